@@ -387,7 +387,7 @@ pub fn slug(s: &str) -> String {
 pub fn replay_in_fresh_process(path: &str, id: &str, cpu_s: u64) -> (bool, String) {
     let exe = std::env::current_exe().expect("current_exe");
     let out = Command::new("timeout")
-        .arg(format!("{}", cpu_s * 4 + 30))
+        .arg(format!("{}", cpu_s * 4 + 60))
         .arg(exe)
         .arg("replay")
         .arg(path)
